@@ -2,5 +2,5 @@ From V Require Import model.Base gen.OwnGraph model.Own.
 Require Extraction.
 Require Import ExtrOcamlBasic.
 Extraction Language OCaml.
-Extraction "../ocaml/c17/model.ml" scenario wf_instb keep_edges acyclicb init run inst_fuel observe
+Extraction "../ocaml/c17/model.ml" scenario scenario_rr2 wf_instb keep_edges acyclicb init run inst_fuel observe
   scenario_ok start drop_slot observe_scn handle_alive nslots own_types own_edges own_res own_policies.
